@@ -1,6 +1,6 @@
 //go:build verif
 
-package config
+package config_test
 
 import "net/netip"
 
